@@ -15,7 +15,7 @@ mod avbc_common;
 
 #[cfg(vbxq_aelys_lang_verif)]
 fn main() {
-    use aelys_bytecode::asm::{deserialize, disassemble_to_string, serialize};
+    use aelys_bytecode::asm::{deserialize, disassemble_to_string, serialize, try_serialize};
     use aelys_bytecode::{Function, GlobalLayout, Heap, UpvalueDescriptor, Value};
     use avbc_common::routes::*;
     use avbc_common::*;
@@ -46,7 +46,10 @@ fn main() {
             let mut bases: Vec<Vec<u8>> = Vec::new();
             let mut emit = |f: &Function, heap: &Heap, bases: &mut Vec<Vec<u8>>| {
                 let term = dump_func(f, heap);
-                let bytes = serialize(f, heap);
+                let bytes = match try_serialize(f, heap) {
+                    Ok(b) => b,
+                    Err(e) => { println!("W\t{}\tERR {}", term, werr_term(&e)); return; }
+                };
                 println!("W\t{}\t{}", term, hex(&bytes));
                 println!("N\t{}\t{}", term, read_result_term(&bytes));
                 // direct oracle, no model: reading back never fails and a second save is byte-identical
@@ -122,7 +125,10 @@ fn main() {
                     _ => f.global_layout = GlobalLayout::new(vec!["a".repeat(n)]),
                 }
                 let before = if kind == 5 || kind == 6 { String::new() } else { dump_func(&f, &heap) };
-                let bytes = serialize(&f, &heap);
+                let bytes = match try_serialize(&f, &heap) {
+                    Ok(b) => b,
+                    Err(e) => { println!("B\t{}\t{}\t0\t0\t0\t(BWErr {})", kind, n, werr_term(&e)); continue; }
+                };
                 let (mut s1, mut s2) = (0u64, 0u64);
                 for &x in &bytes { s1 = (s1 + x as u64) % 4294967291; s2 = (s2 + s1) % 4294967291; }
                 let verdict = match deserialize(&bytes) {
@@ -135,6 +141,56 @@ fn main() {
                     Err(e) => format!("(BErr {})", err_term(&e)),
                 };
                 println!("B\t{}\t{}\t{}\t{}\t{}\t{}", kind, n, bytes.len(), s1, s2, verdict);
+            }
+        } else if mode == "aasm" {
+            // ---------------------------------------------------------------- instruction text
+            // A <word> <disassembly line, comment stripped, blanks collapsed> <reassembled words | ERR>
+            use aelys_bytecode::asm::assemble;
+            let mut words: Vec<u32> = Vec::new();
+            for op in 0u32..=255 {
+                for (a, b, c) in [(0u32, 0u32, 0u32), (1, 2, 3), (255, 255, 255), (7, 0, 1), (0, 128, 0), (3, 127, 255)] {
+                    words.push((op << 24) | (a << 16) | (b << 8) | c);
+                }
+                for _ in 0..arg_u64("--per-op", 4) {
+                    words.push((op << 24) | (rng.next_u64() as u32 & 0xFFFFFF));
+                }
+            }
+            // S <code points of s> <code points of the text between the quotes> <code points of the name read back | ERR>
+            let cps = |t: &str| t.chars().map(|c| (c as u32).to_string()).collect::<Vec<_>>().join(";");
+            let pool: Vec<char> = vec!['a', 'Z', ' ', '"', '\\', '\n', '\r', '\t', '\0', '\u{1}', '\u{1f}', '\u{7f}', '\u{80}', '\u{85}', '\u{9f}', '\u{a0}',
+                                       '\u{e9}', '\u{2028}', '\u{1F600}', 'x', 'n', '0', '{', '}', ';', '\'', '\u{10FFFF}'];
+            for k in 0..arg_u64("--strings", 300) {
+                let n = 1 + rng.below(8) as usize;
+                let s: String = (0..n).map(|_| if k < 30 { pool[(k as usize) % pool.len()] } else if rng.chance(3, 4) { *rng.pick(&pool) }
+                                             else { char::from_u32(rng.below(0x11_0000) as u32).unwrap_or('?') }).collect();
+                let mut f = Function::new(Some(s.clone()), 0);
+                f.set_bytecode(vec![23u32 << 24]);
+                let text = disassemble_to_string(&f, None);
+                // the literal may contain raw newlines: take everything between `.name "` and the `"` before `\n  .arity`
+                let lit = text.split("  .name \"").nth(1).and_then(|r| r.split("\"\n  .arity").next()).unwrap_or("").to_string();
+                let t2 = text.clone();
+                let back = match guarded(move || assemble(&t2)) {
+                    Ok(Ok((fs, _))) => fs.first().and_then(|g| g.name.clone()).map(|n| cps(&n)).unwrap_or_else(|| "NONE".into()),
+                    _ => "ERR".into(),
+                };
+                println!("S\t{}\t{}\t{}", cps(&s), cps(&lit), back);
+            }
+            for w in words {
+                let op = w >> 24;
+                let mut f = Function::new(None, 0);
+                let mut code = vec![w];
+                if op == 77 || op == 78 || op == 104 { code.extend([0u32, 0u32]); }
+                f.set_bytecode(code);
+                let text = disassemble_to_string(&f, None);
+                let line = text.lines().find(|l| l.trim_start().starts_with("0000:")).unwrap_or("").to_string();
+                let line = line.trim_start().trim_start_matches("0000:").split(';').next().unwrap_or("").split_whitespace().collect::<Vec<_>>().join(" ");
+                let t2 = text.clone();
+                let re = match guarded(move || assemble(&t2)) {
+                    Ok(Ok((fs, _))) => match fs.first() { Some(g) => g.bytecode.iter().map(|x| x.to_string()).collect::<Vec<_>>().join(";"), None => "ERR".into() },
+                    Ok(Err(_)) => "ERR".into(),
+                    Err(_) => "PANIC".into(),
+                };
+                println!("A\t{}\t{}\t{}", w, line, re);
             }
         } else {
             // ---------------------------------------------------------------- observational
